@@ -35,6 +35,23 @@ def run(tier, seed):
             c.set_channel(2)
             if a.name != n or a.velocity != 64 or a.channel != 1 or c is a:
                 R.fail("Note copy", "copy-is-independent", "original changed to %r" % (vars(a),), (n, o))
+            # ... whichever way the copy is taken: copy.copy, copy.deepcopy, deepcopy of a list that holds the note
+            import copy as _copy
+            for how, mk in (("copy.copy", lambda: _copy.copy(a)), ("copy.deepcopy", lambda: _copy.deepcopy(a)),
+                            ("copy.deepcopy of a list", lambda: _copy.deepcopy([a, a])[0])):
+                ok, c2 = R.guard("Note copy", "copy-is-independent", (n, o, how), mk)
+                if not ok:
+                    continue
+                if c2 is a or (c2.name, c2.octave) != (a.name, a.octave):
+                    R.fail("Note copy", "copy-is-independent", "%s of %s-%d gives %s" % (
+                        how, n, o, "the note itself" if c2 is a else "%s-%d" % (c2.name, c2.octave)), (n, o, how))
+                    continue
+                c2.augment()
+                c2.octave_up() if o < 8 else c2.octave_down()
+                c2.set_velocity(2)
+                if (a.name, a.octave, a.velocity) != (n, o, 64):
+                    R.fail("Note copy", "copy-is-independent", "after editing its %s the original is %r" % (how, vars(a)), (n, o, how))
+                    a.name, a.octave, a.velocity = n, o, 64
             # Helmholtz round trip (sharps and flats)
             R.case("helmholtz", (n, o))
             ok, m = R.guard("Note.from_shorthand", "helmholtz-roundtrip", (n, o),
